@@ -195,6 +195,10 @@ class _CommonFile:
         source = []
         skipped = b""
         for idx, line in enumerate(lines):
+            if not line.endswith(b"\n"):
+                # last line of a file lacking the final newline --
+                # terminate it, so that whatever gets written after it starts on a new line
+                line += b"\n"
             # NOTE: per htpasswd source (https://github.com/apache/httpd/blob/trunk/support/htpasswd.c),
             #       lines with only whitespace, or with "#" as first non-whitespace char,
             #       are left alone / ignored.
